@@ -35,6 +35,7 @@ func Main(args []string) int {
 	}
 	timeout := time.Duration(*timeoutMs) * time.Millisecond
 	installSink()
+	installGate()
 	w, err := vcommon.NewWriter(*out)
 	if err != nil {
 		fmt.Fprintln(os.Stderr, err)
